@@ -268,7 +268,8 @@ func (l *c17Line) tag(tn string, ci, n int, full bool) {
 }
 
 // comment appends ";" comment. kind: 0 empty, 1 free text (n slots), 2 one tag,
-// 3 free text (1 slot) "," tag, 4 tag "," tag (the second in its plainest form).
+// 3 free text (1 slot) "," tag, 4 tag "," tag (the second in its plainest form),
+// 5 two tags, the first one's value containing the second one's name and a colon.
 func (l *c17Line) comment(name string, kind, n int, full bool) {
 	m := l.mark()
 	l.raw(";")
@@ -286,6 +287,23 @@ func (l *c17Line) comment(name string, kind, n int, full bool) {
 		l.tag(name+".tag0", ci, n, full)
 		l.raw(",")
 		l.tag(name+".tag1", ci, n, false)
+	case 5:
+		// the first tag's value mentions the second tag's name followed by a colon
+		l.spaces(1)
+		for _, part := range [][2]string{{"n:", "see r:"}, {"r:", "42"}} {
+			tm := l.mark()
+			l.raw(part[0])
+			ti := l.lexeme(tm, lfTagName, c17Bit(ttTag))
+			l.lex[ti].comment = ci
+			vm := l.mark()
+			l.raw(part[1])
+			vi := l.lexeme(vm, lfTagValue, c17Bit(ttTagValue))
+			l.lex[vi].comment = ci
+			if part[0] == "n:" {
+				l.raw(",")
+				l.spaces(1)
+			}
+		}
 	}
 	// the comment lexeme runs to the end of the line content
 	l.lex[ci].b1, l.lex[ci].u1 = l.b, l.u
@@ -567,7 +585,7 @@ func c17Scenario(l *c17Line, sc, n int, long bool) []*c17Line {
 			l.plainText("desc", lfDesc, both, 1)
 		}
 		l.spaces(zzverif.Choice("hc.ws", 3))
-		l.comment("hc", zzverif.Choice("hc.kind", 5), 2, false) // every tag variant: scenario 8
+		l.comment("hc", zzverif.Choice("hc.kind", 6), 2, false) // every tag variant: scenario 8
 	case 4: // posting: indentation and account text, then a plain amount
 		l.indent([]int{0, 1, 2, 4, 8}[zzverif.Choice("indent", 5)])
 		first := zzverif.Letters // other first characters: scenario 5 (and the non-letters € 😀 here)
@@ -666,7 +684,7 @@ func c17Scenario(l *c17Line, sc, n int, long bool) []*c17Line {
 		l.indent(4)
 		l.plainAccount("acct")
 		l.spaces(zzverif.Choice("pc.ws", 3))
-		kind := zzverif.Choice("pc.kind", 5)
+		kind := zzverif.Choice("pc.kind", 6)
 		// quick: every blank / length variant of a single tag; two-part comments in their plainest form
 		if kind <= 2 {
 			l.comment("pc", kind, n, true)
@@ -752,7 +770,7 @@ func c17Scenario(l *c17Line, sc, n int, long bool) []*c17Line {
 		if zzverif.Choice("indented", 2) == 1 {
 			l.indent([]int{0, 2, 4}[zzverif.Choice("indent", 3)])
 		}
-		l.comment("lc", zzverif.Choice("lc.kind", 5), 2, false) // every tag variant: scenario 8
+		l.comment("lc", zzverif.Choice("lc.kind", 6), 2, false) // every tag variant: scenario 8
 	default: // a small transaction; every line takes part (order across lines)
 		l.noWide = true
 		h := &c17Line{noWide: true}
@@ -1041,8 +1059,10 @@ func c17LineWindows(lines []*c17Line, li int, crlf bool) []c17Window {
 	// 1. leaves that the lexer does not take for what they are: from the leaf to the line end
 	for j, x := range l.lex {
 		switch {
-		case c17IsTextLeaf(x.leaf):
-			if c := c17TextLeafClass(l.text, x.b0, x.leaf == lfPath); c != "" {
+		case x.leaf == lfPath:
+			// (header text - description, payee, note - is scanned as free text since the lexer's
+			// header mode; the first-character dispatch still applies to an include path)
+			if c := c17TextLeafClass(l.text, x.b0, true); c != "" {
 				ws = append(ws, c17Window{c, x.u0, c17ToEOL, c17AnyKind})
 			}
 		case x.leaf == lfCode:
@@ -1050,9 +1070,7 @@ func c17LineWindows(lines []*c17Line, li int, crlf bool) []c17Window {
 			for i := x.b0 + 1; i < x.b1-1; i++ {
 				colon = colon || l.text[i] == ':'
 			}
-			if colon {
-				ws = append(ws, c17Window{kfCodeColon, x.u0, c17ToEOL, c17AnyKind})
-			}
+			_ = colon // a code with a colon is a code since the lexer's header mode
 		case x.leaf == lfAccount:
 			if !c17LetterAt(l.text, x.b0) {
 				ws = append(ws, c17Window{kfAcctStart, x.u0, c17ToEOL, c17AnyKind})
